@@ -11,10 +11,11 @@
 (*   kmerspec    KmerSpec validation and JSON round trip                    *)
 (*   dmat        cluster.dump_dmat_csv -> load_dmat_csv     vs Csv          *)
 (*   stream      util.io.ClosingIterator / SequenceFile.parse vs StreamDef  *)
+(*   accum       sigs.calc.ArrayAccumulator / SetAccumulator as sets         *)
 (*   paramgroup  cli.common.check_params_group (exclusive / required)      *)
 (*   progress    meter protocol of the long-running calls   vs Progress     *)
 (***************************************************************************)
-EXTENDS Taxonomy, Jaccard, Labels, Csv, ProgressDef, StreamDef, Judge
+EXTENDS Taxonomy, Jaccard, Labels, Csv, ProgressDef, StreamDef, Nucleotide, Judge
 
 \* ---- taxonomy operations
 Children(parent, t) == { c \in DOMAIN parent : parent[c] = t }
@@ -101,12 +102,30 @@ ClStream(r) ==
   << <<"observations-follow-the-stream-lifecycle", Matches(r.obs, Run(src, S0, r.ops))>>,
      <<"stream-closed-iff-lifecycle-says-so", fin = "unknown" \/ r.closed = (fin = "no")>> >>
 
+\* ---- k-mer accumulators as mutable sets of indices (ArrayAccumulator / SetAccumulator): a history of operations with the observation
+\* of each; indices are base-4 digit tuples; add_kmer adds the index of a valid k-mer and ignores an invalid one
+AccStep(S, o) ==
+  CASE o.o = "add" -> <<S \cup {o.v}, "ok">>
+    [] o.o = "discard" -> <<S \ {o.v}, "ok">>
+    [] o.o = "contains" -> <<S, IF o.v \in S THEN "yes" ELSE "no">>
+    [] o.o = "clear" -> <<{}, "ok">>
+    [] o.o = "add_kmer" -> IF Len(o.kmer) # o.k THEN <<S, "ValueError">>
+                            ELSE IF ValidSeq(o.kmer) THEN <<S \cup {Enc(o.kmer)}, "ok">> ELSE <<S, "ok">>
+RECURSIVE AccRun(_, _, _)
+AccRun(S, ops, i) == IF i > Len(ops) THEN <<>> ELSE LET r == AccStep(S, ops[i]) IN <<[obs |-> r[2], n |-> Cardinality(r[1]), set |-> r[1]]>> \o AccRun(r[1], ops, i + 1)
+ClAccum(r) ==
+  LET exp == AccRun({}, r.ops, 1)
+      final == IF r.ops = <<>> THEN {} ELSE exp[Len(exp)].set
+  IN << <<"every-operation-observed-as-on-a-set", Len(r.obs) = Len(exp) /\ \A i \in DOMAIN exp : r.obs[i].obs = exp[i].obs /\ r.obs[i].n = exp[i].n>>,
+        <<"iteration-yields-the-members", Range(r.members) = final /\ Len(r.members) = Cardinality(final)>>,
+        <<"signature-is-the-sorted-set-in-the-smallest-type", Range(r.sig) = final /\ StrictlyIncreasing(r.sig) /\ r.width = IndexWidth(r.k) /\ r.kind = "u">> >>
+
 ClProgress(r) ==
   << <<"meter-protocol", Follows(r.total, r.events, r.returned)>>,
      <<"total-is-the-amount-of-work", r.total = r.expected_total>> >>
 
 Clauses(r) == CASE r.op = "progress" -> ClProgress(r) [] r.op = "access" -> ClAccess(r) [] r.op = "taxon" -> ClTaxon(r) [] r.op = "chunks" -> ClChunks(r) [] r.op = "generic" -> ClGeneric(r)
                 [] r.op = "dense" -> ClDense(r) [] r.op = "labels" -> ClLabels(r) [] r.op = "kmerspec" -> ClKmerSpec(r)
-                [] r.op = "dmat" -> ClDmat(r) [] r.op = "paramgroup" -> ClParamGroup(r) [] r.op = "stream" -> ClStream(r)
+                [] r.op = "dmat" -> ClDmat(r) [] r.op = "paramgroup" -> ClParamGroup(r) [] r.op = "stream" -> ClStream(r) [] r.op = "accum" -> ClAccum(r)
 ASSUME PrintT(ToJson(Verdict(Recs, Clauses)))
 =============================================================================
